@@ -1009,8 +1009,18 @@ async fn faand(
 
     // Step 2) Randomly partition all objects into l buckets, each with b objects.
     // Use SliceRandom::shuffle for unbiased random permutation
+    // The bucket assignment must not be determined before the leaky triples have been generated
+    // and checked, so a coin toss made now is mixed into the seed of the permutation.
+    let mut fresh_rand = shared_rng(channel, i, n).await?;
+    let mut bucket_seed: [u8; 32] = shared_rand.random();
+    let fresh_seed: [u8; 32] = fresh_rand.random();
+    bucket_seed
+        .iter_mut()
+        .zip(fresh_seed)
+        .for_each(|(s, f)| *s ^= f);
+    let mut bucket_rand = ChaCha20Rng::from_seed(bucket_seed);
     let mut indices: Vec<usize> = (0..lprime).collect();
-    indices.shuffle(shared_rand);
+    indices.shuffle(&mut bucket_rand);
     #[cfg(feature = "__verif")]
     crate::verif::probe(
         "bucket_perm",
